@@ -327,9 +327,8 @@ def live_cases(rng, thorough):
     # same identifier and sequence, different (random) data: matched by the data
     mk([[T, 8, 2], [1, 0, 300, 1, 64], SILENT, d0, [1, 1, 300, 1, 64], SILENT, d1, [5, 300, 1], d1, [5, 300, 1], d0,
         [2, 0, 150], [2, 1, 150], [3]], "live:same-ids-different-data")
-    # queue overflow: capacity 1, two answers for the same client before it reads
-    mk([[T, 1, 1], [1, 0, 400, 1, 64], SILENT, d0, [1, 0, 400, 2, 64], SILENT, d1, [5, 400, 1], d0, [5, 400, 2], d1,
-        [2, 0, 150], [2, 0, 100], [3]], "live:queue-overflow")
+    # (queue overflow is not driven live: whether the second answer finds the queue full depends on the
+    #  scheduling of the listening task against the reading client; it is covered by the model theorems only)
     # KNOWN FINDING: equal identifier/sequence and empty data from two clients
     mk([[T, 8, 2], [1, 0, 7, 1, 64], SILENT, [], [1, 1, 7, 1, 64], SILENT, [], [3], [5, 7, 1], [], [2, 0, 150],
         [2, 1, 150], [5, 7, 1], [], [2, 0, 150], [2, 1, 150], [3]], "live:known-shared-identifier")
